@@ -2,7 +2,7 @@
 
 PROPS = {
     "C18": {
-        "modules": ["Cose.Props.C18", "Cose.Props.CwtEndToEnd", "Cose.Cwt.View", "Cose.Props.ClaimsForms"],
+        "modules": ["Cose.Props.C18", "Cose.Props.CwtEndToEnd", "Cose.Cwt.View", "Cose.Props.ClaimsForms", "Cose.Props.C18Shape"],
         "families": ["cwt", "claims"],
         "spec_ops": ["cwt.spec", "cwt.wallclock", "claims.enc"],
         "n_quick": 20000, "n_thorough": 2000000,
